@@ -39,14 +39,30 @@ def h_flow(t, part):
     calls = []
     cb_fired = []
 
+    during = {'armed': False, 'n': 0, 'served': 0, 'by': ()}
+
     def mk(kind, ret=None):
+        # while a handler runs for the offender, a bystander's event arrives and is processed to the end (threaded: the
+        # bystander's transport thread; asyncio: its task while this handler is suspended)
         if asyncio_:
             async def f(sid, *a):
                 calls.append((kind, sid, a))
+                if during['armed'] and sid not in during['by']:
+                    during['n'] += 1
+                    n0 = len(calls)
+                    await w.eio.recv('e1', during['frame'])
+                    if calls[n0:] == [('ev', during['by'][0], ('during',))]:
+                        during['served'] += 1
                 return ret
         else:
             def f(sid, *a):
                 calls.append((kind, sid, a))
+                if during['armed'] and sid not in during['by']:
+                    during['n'] += 1
+                    n0 = len(calls)
+                    w.eio.recv('e1', during['frame'])
+                    if calls[n0:] == [('ev', during['by'][0], ('during',))]:
+                        during['served'] += 1
                 return ret
         return f
 
@@ -70,6 +86,8 @@ def h_flow(t, part):
         for e in ('e0', 'e1', 'e2'):
             w.take(e)
         del calls[:]
+        during['by'] = (b1, b2)
+        during['frame'] = worlds.encode_frames(w.P(packet.EVENT, data=['ev', 'during'], namespace='/'))[0]
     if 'first' in part:
         t.force(part['first'] if isinstance(part['first'], list) else [part['first']])
     hostile_undecodable = 0
@@ -82,6 +100,7 @@ def h_flow(t, part):
         pending_before = 'e0' in w.s._binary_packet      # an earlier header of the offender still waits for attachments
         kind = t.choice(3)
         undecodable = False
+        during['armed'] = True
         if kind == 0:
             # a decoded packet with arbitrary fields
             small = part.get('palette') == 'small'
@@ -103,7 +122,11 @@ def h_flow(t, part):
             undecodable = True
             hostile_undecodable += 1
             w.recv('e0', MALFORMED[t.choice(len(MALFORMED))])
-        new_calls = calls[ncalls:]
+        during['armed'] = False
+        if during['served'] != during['n']:
+            return Fail('hostile:bystander-not-served-during-offenders-handler', 'a bystander event that arrived while a handler '
+                        'was running for the offender was not dispatched; handlers ran %r' % (calls[ncalls:],))
+        new_calls = [c for c in calls[ncalls:] if c != ('ev', b1, ('during',))]
         own = ({w.sid('e0', n) for n in ('/', '/a')} - {None}) | own_before      # the offender's sessions before or after
         bad = [c for c in new_calls if c[1] not in own]
         if bad:
